@@ -296,7 +296,7 @@ Section Invariant.
       apply andb_prop in H. destruct H as [_ H]. apply inv_kexinit; auto.
     - destruct (tt_free s) eqn:F; [|exact I]. apply inv_recv; auto using free_none.
     - destruct (tt_free s) eqn:F; [|exact I].
-      destruct (ka s && negb (need s)); [|exact I].
+      destruct (ka s && negb (keepalive_need_guard && need s)); [|exact I].
       simpl in OK. destruct keepalive_disc eqn:D; [exact I| |].
       + discriminate D.
       + apply inv_gate_tt; auto using keepalive_plain. right. auto.
@@ -498,6 +498,27 @@ Proof.
   intros s. split; [reflexivity|]. split; [reflexivity|]. split; [reflexivity|].
   intros evs. destruct (lock_stuck true evs s) as [O [C _]]; try reflexivity. auto.
 Qed.
+
+(* ---- the keepalive guard: while a threshold-triggered exchange is pending (need_rekey set from the trigger
+   until both directions switched keys) a read timeout - at a packet boundary or in the middle of a packet -
+   never runs the keepalive callback, so the tick cannot park the transport thread at the gate ------------- *)
+Lemma keepalive_guarded_while_need_rekey :
+  keepalive_need_guard = true /\ forall s, need s = true -> step s KeepTick = s.
+Proof.
+  split; [reflexivity|]. intros s N. rewrite step_eq. unfold step_gen. destruct (dead s); [reflexivity|].
+  destruct (tt_free s); [|reflexivity]. rewrite N.
+  replace keepalive_need_guard with true by reflexivity. simpl. rewrite andb_false_r. reflexivity.
+Qed.
+
+(* a whole threshold-triggered exchange with keepalive ticks anywhere in it: need stays set from the trigger to
+   the peer's NEWKEYS, so every tick is a no-op and the run equals the run without the ticks *)
+Lemma threshold_rekey_ignores_keepalive :
+  let with_ticks := [Threshold; TtIter; KeepTick; UserSend 94; KeepTick; Recv 20 false; KeepTick;
+                     Recv 31 false; KeepTick; Recv 21 false; UserWake] in
+  let without := [Threshold; TtIter; UserSend 94; Recv 20 false; Recv 31 false; Recv 21 false; UserWake] in
+  run (init_st true) with_ticks = run (init_st true) without /\
+  map fst (out (run (init_st true) with_ticks)) = [20; 30; 21; 94].
+Proof. vm_compute. split; reflexivity. Qed.
 
 (* ---- the NEWKEYS window (v0 = completion signalled before the gate is released) ------------------------ *)
 (* v1 is what every theorem above is about; the working tree is v1 exactly when the translator says so *)
